@@ -2,6 +2,7 @@ package rules
 
 import (
 	"fmt"
+	"go/token"
 	"go/types"
 
 	"fpcheck/internal/core"
@@ -13,7 +14,7 @@ func init() {
 	register(&Prop{
 		ID: "C08",
 		Explanation: "Lockset analysis (must-held locks per SSA instruction) over every method of the wrapper types that hold a sync.RWMutex next to a wrapped Queue/Stack interface value: " +
-			"each invoke of a wrapped-interface method must happen with the wrapper's lock held in exclusive (W) mode, the lock must be released on every exit, and the wrapped value must not be reachable except through those methods. " +
+			"each invoke of a wrapped-interface method must happen with the wrapper's lock held in exclusive (W) mode, the lock must be released on every exit, the wrapped value must not be reachable except through those methods, and (R3) every operation is a pure delegation: exactly one delegated call per path whose results are what the operation returns - an answer computed from side bookkeeping (a counter read outside the lock) is not linearizable with the wrapped structure. " +
 			"Mutual exclusion of all delegated calls is what makes each call atomic w.r.t. the wrapped (non-thread-safe) structure; FIFO/LIFO correctness of the wrapped structure itself is not decided here.",
 		Trusted: commonTrusted,
 		Run:     runC08,
@@ -73,6 +74,7 @@ func runC08(c *core.Ctx) {
 	c.Rule("R1", "every invoke of a wrapped Queue/Stack method happens with the wrapper's lock held in exclusive mode (RLock is not enough: all wrapped methods mutate or perform channel operations)", 6)
 	c.Rule("R1b", "the lock taken by a wrapper method is released on every return path (defer Unlock or explicit unlock)", 6)
 	c.Rule("R1c", "wrapper methods have pointer receivers: a value receiver copies the struct, so the method would lock a private copy of the mutex (no mutual exclusion, and a copied locked mutex never unlocks)", 6)
+	c.Rule("R3", "pure delegation: every path through an operation of the wrapper performs exactly one delegated call on the wrapped structure and returns that call's results (no answer is produced from the wrapper's own bookkeeping, e.g. a lock-free emptiness shortcut)", 6)
 	c.Rule("R2", "the wrapped queue/stack field is only read as the receiver of a delegated call inside the wrapper's own methods (never returned, stored elsewhere or passed on)", 2)
 	c.Assume = append(c.Assume, "callers hand the wrapped queue/stack to the wrapper and do not keep using it directly",
 		"a blocking wrapped implementation (ChannelQueue.Take) blocks inside the critical section: progress is not claimed")
@@ -132,6 +134,102 @@ func runC08(c *core.Ctx) {
 					}
 				}
 			})
+		}
+		ifaceMethods := map[string]bool{}
+		for i := 0; i < st.NumFields(); i++ {
+			if it, isI := st.Field(i).Type().Underlying().(*types.Interface); isI && st.Field(i).Name() == ifaceField {
+				for k := 0; k < it.NumMethods(); k++ {
+					ifaceMethods[it.Method(k).Name()] = true
+				}
+			}
+		}
+		for _, m := range p.Methods(p.Fpgo, tn) {
+			if !m.Object().Exported() || m.Signature.Results().Len() == 0 || !ifaceMethods[m.Name()] {
+				continue // lock helpers, setters, additions that are not operations of the wrapped interface
+			}
+			key := tn + "." + m.Name() + "/delegation"
+			isDeleg := func(ins ssa.Instruction) bool {
+				call, ok := ins.(*ssa.Call)
+				return ok && call.Call.IsInvoke() && core.Path(call.Call.Value) == m.Params[0].Name()+"."+ifaceField
+			}
+			min, max := core.PathCount(m, core.DeepWeight(p, func(ins ssa.Instruction) int {
+				if isDeleg(ins) {
+					return 1
+				}
+				return 0
+			}), nil)
+			if min != 1 || max != 1 {
+				c.Fail("R3", key, p.Pos(m.Pos()), fmt.Sprintf("a path through %s.%s performs %d..%d delegated calls (must be exactly 1): some answers do not come from the wrapped structure", tn, m.Name(), min, max))
+				continue
+			}
+			// every returned value is a result of a delegated call (directly, or through a cell only such results are stored into)
+			fromDeleg := func(v ssa.Value) bool {
+				v = core.Resolve(v)
+				switch x := v.(type) {
+				case *ssa.Extract:
+					if call, ok := x.Tuple.(*ssa.Call); ok {
+						return isDeleg(call)
+					}
+				case *ssa.Call:
+					return isDeleg(x)
+				}
+				return false
+			}
+			cellFromDeleg := func(v ssa.Value) bool {
+				u, ok := v.(*ssa.UnOp)
+				if !ok || u.Op != token.MUL {
+					return false
+				}
+				a, ok := u.X.(*ssa.Alloc)
+				if !ok {
+					return false
+				}
+				n, good := 0, true
+				var visit func(cell ssa.Value)
+				visit = func(cell ssa.Value) {
+					for _, r := range *cell.Referrers() {
+						switch x := r.(type) {
+						case *ssa.Store:
+							if x.Addr == cell {
+								if ld, isLd := x.Val.(*ssa.UnOp); isLd && ld.Op == token.MUL && ld.X == cell {
+									continue // `return err` with a named result re-stores the cell's own value
+								}
+								n++
+								if !fromDeleg(x.Val) {
+									good = false
+								}
+							} else {
+								good = false
+							}
+						case *ssa.MakeClosure:
+							fn := x.Fn.(*ssa.Function)
+							for k, b := range x.Bindings {
+								if b == cell && k < len(fn.FreeVars) {
+									visit(fn.FreeVars[k])
+								}
+							}
+						case *ssa.UnOp, *ssa.DebugRef:
+						default:
+							good = false
+						}
+					}
+				}
+				visit(a)
+				return good && n > 0
+			}
+			bad := ""
+			core.Instrs(m, func(ins ssa.Instruction) {
+				r, ok := ins.(*ssa.Return)
+				if !ok || r.Block() == m.Recover {
+					return
+				}
+				for i, v := range core.RetVals(r) {
+					if !fromDeleg(v) && !cellFromDeleg(v) && !cellFromDeleg(r.Results[i]) {
+						bad = fmt.Sprintf("result #%d returned at %s is not the result of the delegated call", i, p.InstrPos(r))
+					}
+				}
+			})
+			c.Check(bad == "", "R3", key, p.Pos(m.Pos()), "exactly one delegated call per path, its results returned", bad)
 		}
 		// R2: every use of the iface field, anywhere in the program
 		for _, f := range p.Funcs {
